@@ -112,7 +112,7 @@ Fixpoint of_wcomp (w : wcomp) : sx :=
 Definition of_pobj (o : pobj) : sx := L [of_nats (o_scope o); of_str (o_name o); of_opt of_Qc (o_val o)].
 Definition of_dparam (d : dparam) : sx :=
   match d with
-  | DFix v => L [I 0; of_Qc v] | DVar o => L [I 1; of_pobj o] | DExpr e os => L [I 2; of_str e; of_listf of_pobj os]
+  | DFix v => L [I 0; of_Qc v] | DVar o => L [I 1; of_pobj o] | DExpr sc e os => L [I 2; of_str e; of_listf of_pobj os; L [of_nats sc; of_str e; L []]]
   | DSym e => L [I 3; of_str e] | DNone => L [I 4]
   end.
 Definition of_qmat (m : list (list qi)) : sx := of_listf (of_listf of_qi) m.
